@@ -14,6 +14,7 @@ Driver for C09. Requests:
 * `trace <off> | <code point>*` → `ok <line> <pos> <code points of the line>` or `panic`
 * `eoi | <code point>*` → the same for `trace_end_of_input`
 * `alloc (n <name> <len> | w <name> <i> <v> | r <name> <i>)*` → outputs of `runOps` (`v<val>`, `rec`, `fatal`, `panic`)
+* `gutter <line number>` → paddings of the `>>>` header, the empty `|` line and the source line of a block
 * `depth <k>` → `max=<num_current_sources> end=<ok|fatal>` for k nested `\input`s
 * `shape <k> <ok|fatal|end>` → outcome in scroll and in errorstop mode of k recoverable errors followed by that end
 * `chr <i>` → `ok <c>` | `err <c>` | `panic`        (`charFromCode`)
@@ -105,6 +106,13 @@ def handle (line : String) : String :=
   | "alloc" :: ws =>
     match decOps ws with
     | some ops => " ".intercalate ((runOps Alloc.empty ops).map showAOut)
+    | none => "bad-request"
+  | ["gutter", n] =>
+    match n.toNat? with
+    | some n =>
+      match headerPad n, blankPad n, sourcePad n with
+      | some a, some b, some c => s!"{a} {b} {c}"
+      | _, _, _ => "underflow"
     | none => "bad-request"
   | ["depth", k] =>
     match k.toNat? with
